@@ -29,6 +29,7 @@ import (
 
 type tsaWorld struct {
 	root, inter, leaf2, leaf3 *pki.Cert // leaf2 issued by root, leaf3 issued by inter
+	namelessLeaf              *pki.Cert // issued by root, empty subject name
 	otherRoot, otherLeaf      *pki.Cert
 	variants                  map[string][]*pki.Cert // defective TSA chains by name
 	pool                      *x509.CertPool
@@ -47,6 +48,9 @@ func tsaGetWorld() *tsaWorld {
 		w.inter = pki.Issue(pki.CATmpl("tsa inter"), pki.K("p384-a"), w.root, nil)
 		w.leaf2 = pki.Issue(pki.TSALeafTmpl("tsa leaf (chain 2)"), pki.K("p256-f"), w.root, nil)
 		w.leaf3 = pki.Issue(pki.TSALeafTmpl("tsa leaf (chain 3)"), pki.K("p256-g"), w.inter, nil)
+		nl := pki.TSALeafTmpl("")
+		nl.EmptySubject = true
+		w.namelessLeaf = pki.Issue(nl, pki.K("p256-h"), w.root, nil)
 		w.otherRoot = pki.Issue(pki.RootTmpl("untrusted tsa root"), pki.K("p256-b"), nil, nil)
 		w.otherLeaf = pki.Issue(pki.TSALeafTmpl("tsa leaf under untrusted root"), pki.K("p256-h"), w.otherRoot, nil)
 		mk := func(name string, mod func(t *pki.Tmpl)) {
@@ -143,6 +147,11 @@ func tsaBehaviours() []tsaBehaviour {
 	}
 	token("granted-valid-chain2", true, 2, std2)
 	token("granted-valid-chain3", true, 3, std3)
+	// an authority whose signing certificate has an empty subject name (identified by its subject alternative name only): every rule
+	// applies to it as to any other certificate, in particular what the revocation validator says about it
+	token("granted-valid-chain2-leaf-without-a-subject-name", true, 2, func(w *tsaWorld) pki.TSASpec {
+		return pki.TSASpec{Signer: w.namelessLeaf, Embed: []*pki.Cert{w.namelessLeaf, w.root}}
+	})
 	token("granted-valid-leaf-only-embedded(intermediate missing)", false, 0, func(w *tsaWorld) pki.TSASpec { return pki.TSASpec{Signer: w.leaf3, Embed: []*pki.Cert{w.leaf3}} })
 	out = append(out, tsaBehaviour{name: "granted-with-mods-valid-chain2", valid: true, chain: 2, reply: func(w *tsaWorld, req *tspclient.Request, tokenOut *[]byte) netsim.Answer {
 		tok := pki.ForgeTSToken(req, std2(w))
